@@ -67,6 +67,14 @@ def helpers_policy(keep=()):
     return pol
 
 
+def only_policy(names):
+    """inline exactly the local functions whose key ends with one of `names`"""
+    def pol(root_key, callee, depth):
+        return depth <= MAX_DEPTH and any(callee.key.endswith(k) for k in names)
+    pol.__name__ = "only:" + ",".join(names)
+    return pol
+
+
 # ---------------------------------------------------------------------------
 
 def _map_place(p, loff):
@@ -306,7 +314,9 @@ def _defined_in(own, allstmts, discr):
         if isinstance(o, dict) and o.get("k") == "const":
             return False
         return any(st is x for x in own)
-    return False
+    # not assigned in these statements at all: the result of the call that ends the predecessor, copied here
+    return l != discr["place"]["l"] and any(
+        st.get("k") == "assign" and not st["place"]["p"] and st["rv"]["k"] in ("use", "unop") for st in own)
 
 
 def thread_jumps(raw, rounds=8):
